@@ -75,7 +75,19 @@ def _val(v, prog=None, q=None, p=None):
     return v
 
 
+def _fresh_sympy():
+    """sympy caches Symbol instances and function applications by structural equality, and MeasuredParameter keeps its
+    RegRef as a mutable attribute of the cached instance: expressions built for one program can resurface, carrying
+    that program's RegRefs, in the next.  Every build / load here starts from an empty cache so cases are independent."""
+    try:
+        from sympy.core.cache import clear_cache
+        clear_cache()
+    except Exception:
+        pass
+
+
 def build(spec):
+    _fresh_sympy()
     tdm = spec.get("tdm")
     if tdm:
         prog = TDMProgram(list(tdm["N"]) if len(tdm["N"]) > 1 else tdm["N"][0], name=spec.get("name"))
@@ -94,7 +106,7 @@ def build(spec):
             if name == "New":
                 ops.New(c["p"][0])
                 continue
-            regs = tuple(prog.register[m] for m in c["modes"])
+            regs = tuple(prog.reg_refs[m] for m in c["modes"])
             if name == "Del":
                 ops.Del | regs
                 continue
@@ -253,7 +265,7 @@ def pv_equal(a, b, tol=0.0):
         return x[2] == 0 and x[1] == float(y[1])
     if ka == "str" and kb == "str":
         return a[1] == b[1]
-    if ka == "sym" and kb == "sym":
+    if ka == kb and ka in ("sym", "strexpr", "rrt"):
         return sym_equal(a[1], b[1])
     if ka in ("arr", "seq") and kb in ("arr", "seq"):
         if ka == "arr" and kb == "arr" and a[1] != b[1]:
@@ -454,3 +466,1095 @@ def reduced(mc, k):
     n = len(m) // 2
     idx = list(range(k)) + [n + i for i in range(k)]
     return m[idx], c[np.ix_(idx, idx)]
+
+
+# ==========================================================================================
+# Generators
+# ==========================================================================================
+import copy
+import os
+import json
+import re
+
+GATES1 = {"Xgate": ["r"], "Zgate": ["r"], "Rgate": ["a"], "Pgate": ["r"], "Vgate": ["r"], "Kgate": ["r"],
+          "Dgate": ["d", "a"], "Sgate": ["r", "a"]}
+GATES2 = {"CXgate": ["r"], "CZgate": ["r"], "CKgate": ["r"], "BSgate": ["a", "a"], "MZgate": ["a", "a"], "S2gate": ["r", "a"]}
+CHANNELS = {"LossChannel": ["t"], "ThermalLossChannel": ["t", "n"]}
+PREPS = {"Vacuum": [], "Coherent": ["d", "a"], "Squeezed": ["r", "a"], "DisplacedSqueezed": ["d", "a", "r", "a"],
+         "Fock": ["k"], "Thermal": ["n"]}
+GENERIC = {}
+for _d in (GATES1, GATES2, CHANNELS, PREPS):
+    GENERIC.update(_d)
+NMODES = {k: 1 for k in list(GATES1) + list(CHANNELS) + list(PREPS)}
+NMODES.update({k: 2 for k in GATES2})
+DAGGERABLE = set(GATES1) | set(GATES2) | {"Fouriergate"}
+NONGAUSS = {"Vgate", "Kgate", "CKgate", "Fock"}
+
+FREE_NAMES = ["a", "alpha", "b1", "foo_bar", "theta", "x"]
+ODD_FREE_NAMES = ["q1", "quux", "p7", "q0"]
+ANGLES = [0.0, math.pi / 2, math.pi, -math.pi / 2, math.pi / 4, 2 * math.pi, math.pi / 12, 5 * math.pi / 12, 3 * math.pi, 0.3, -0.7]
+
+
+def draw_num(rng, kind):
+    r = rng.random()
+    if kind == "k":
+        return rng.randrange(0, 4)
+    if kind == "t":
+        return rng.choice([1.0, 0.5, 0.25, 0.0, 1]) if r < 0.4 else rng.uniform(0.05, 1.0)
+    if kind == "n":
+        return rng.choice([0.0, 0.5, 1, 2.25]) if r < 0.4 else rng.uniform(0, 1.5)
+    if kind == "a":
+        if r < 0.35:
+            return rng.choice(ANGLES)
+        if r < 0.45:
+            return rng.choice([0, 1, -1, 2])
+        return rng.uniform(-math.pi, math.pi) if r < 0.9 else round(rng.uniform(-3, 3), 3)
+    if kind == "d":
+        if r < 0.3:
+            return rng.choice([0.0, 0.5, 1, 1.25])
+        return rng.uniform(0, 1.2)
+    # r
+    if r < 0.25:
+        return rng.choice([0.0, 0.5, -0.5, 1, -1, -0.0, 1e-12, 0.1])
+    if r < 0.30:
+        return rng.choice([1e-20, 123456.789, -2.5e-7])
+    return rng.uniform(-0.8, 0.8) if r < 0.9 else round(rng.uniform(-1, 1), 2)
+
+
+def draw_expr(rng, atoms, depth=None):
+    """expression using each atom at most once (no cancellation)"""
+    atoms = list(atoms)
+    rng.shuffle(atoms)
+    depth = rng.choice([0, 0, 1, 1, 2, 3]) if depth is None else depth
+    e = atoms.pop()
+    for _ in range(depth):
+        k = rng.choice(["mulnum", "addnum", "neg", "sin", "cos", "exp", "pow", "addatom", "mulatom"])
+        if k == "mulnum":
+            e = ["mul", ["num", rng.choice([2, 3, 0.5, -1.5, 2.25])], e]
+        elif k == "addnum":
+            e = ["add", e, ["num", rng.choice([1, 0.5, -0.25, 3])]]
+        elif k == "neg":
+            e = ["neg", e]
+        elif k in ("sin", "cos", "exp"):
+            e = [k, e]
+        elif k == "pow":
+            e = ["pow", e, rng.choice([2, 3])]
+        elif atoms:
+            e = ["add" if k == "addatom" else "mul", e, atoms.pop()]
+    return e
+
+
+def expr_atoms(e):
+    if e[0] in ("free", "meas", "tdm"):
+        return [tuple(e)]
+    out = []
+    for x in e[1:]:
+        if isinstance(x, list):
+            out += expr_atoms(x)
+    return out
+
+
+def rand_unitary(rng, n, complex_=True):
+    rs = np.random.RandomState(rng.randrange(2 ** 31))
+    a = rs.randn(n, n) + (1j * rs.randn(n, n) if complex_ else 0)
+    qm, _ = np.linalg.qr(a)
+    return qm
+
+
+def arr_spec(a):
+    a = np.asarray(a)
+    if np.iscomplexobj(a):
+        def enc(x):
+            if isinstance(x, np.ndarray):
+                return [enc(y) for y in x]
+            return [float(x.real), float(x.imag)]
+        return {"a": enc(a), "dt": "complex"}
+    if a.dtype.kind == "i":
+        return {"a": a.tolist(), "dt": "int"}
+    return {"a": a.tolist(), "dt": "float"}
+
+
+def gen_program(rng, wide=True, profile=None):
+    """Random program spec.  Mostly valid, structured; `wide` adds op classes outside the Coq model's comparison
+    (constructor keyword options) and rare odd inputs."""
+    prof = profile or rng.choice(["clean", "clean", "mixed", "mixed", "mixed", "tdm", "options"])
+    feats = set()
+    if prof in ("mixed", "tdm"):
+        for f, pr in (("dagger", 0.4), ("free", 0.3), ("meas", 0.3), ("select", 0.35), ("special", 0.3), ("array", 0.25),
+                      ("fourier", 0.15), ("oddname", 0.06), ("meta", 0.05), ("measphi", 0.15), ("strparam", 0.12), ("mixedexpr", 0.08)):
+            if rng.random() < pr:
+                feats.add(f)
+    spec = {"name": rng.choice(["prog", "prog", None, "my_circuit"]), "target": None, "shots": None, "cutoff": None, "tdm": None}
+    if prof == "options" or rng.random() < 0.25:
+        spec["target"] = rng.choice([None, "gaussian", "fock", "X8_01", "gaussian"])
+        spec["shots"] = rng.choice([None, 1, 10, 500])
+        spec["cutoff"] = rng.choice([None, 5, 12])
+    tdm = prof == "tdm"
+    if tdm:
+        N = rng.choice([[1], [2], [2], [3], [1, 2], [2, 1, 1]])
+        n = sum(N)
+        nv = rng.randint(1, 3)
+        tb = rng.randint(1, 4)
+        arrays = []
+        for _ in range(nv):
+            kind = rng.choice(["int", "float", "angle", "mixed"])
+            if kind == "int":
+                arrays.append([rng.randrange(-3, 7) for _ in range(tb)])
+            elif kind == "float":
+                arrays.append([rng.uniform(-1, 1) for _ in range(tb)])
+            elif kind == "angle":
+                arrays.append([rng.choice(ANGLES) for _ in range(tb)])
+            else:
+                arrays.append([rng.choice([0, 0.5, 1, math.pi, rng.uniform(-1, 1)]) for _ in range(tb)])
+        spec["tdm"] = {"N": N, "arrays": arrays, "shift": "default" if rng.random() < 0.9 else rng.randrange(0, 3)}
+    else:
+        n = rng.choice([1, 2, 2, 3, 3, 4, 5, 10, 12])
+    spec["n"] = n
+    ncmds = rng.choice([1, 1, 2, 3, 4, 5, 6, 8]) if not tdm else rng.choice([1, 2, 3, 4])
+    cmds = []
+    measured = []
+    live = list(range(n))
+    tdm_unused = list(range(len(spec["tdm"]["arrays"]))) if tdm else []
+
+    def sym_param():
+        atoms = []
+        if tdm and (tdm_unused or rng.random() < 0.5):
+            i = tdm_unused.pop() if tdm_unused else rng.randrange(len(spec["tdm"]["arrays"]))
+            e = ["tdm", i]
+            if rng.random() < 0.2:
+                e = draw_expr(rng, [e], depth=1)
+            return {"e": e}
+        if "free" in feats:
+            nm = rng.choice(ODD_FREE_NAMES) if ("oddname" in feats and rng.random() < 0.5) else rng.choice(FREE_NAMES)
+            atoms.append(["free", nm])
+        if "meas" in feats and measured:
+            atoms.append(["meas", rng.choice(measured)])
+        if not atoms:
+            return None
+        if "mixedexpr" not in feats and len(atoms) > 1:
+            atoms = [rng.choice(atoms)]
+        if len(atoms) > 1 and rng.random() < 0.5:
+            return {"e": draw_expr(rng, atoms, depth=rng.choice([1, 2]))}
+        return {"e": draw_expr(rng, [rng.choice(atoms)])}
+
+    def numeric_params(kinds):
+        ps = []
+        for k in kinds:
+            v = draw_num(rng, k)
+            if k != "k" and (tdm or feats & {"free", "meas"}) and rng.random() < 0.45:
+                s = sym_param()
+                if s is not None:
+                    v = s
+            ps.append(v)
+        return ps
+
+    for ci in range(ncmds):
+        r = rng.random()
+        avail = [m for m in live]
+        if not avail:
+            break
+        c = None
+        if "meta" in feats and r < 0.12 and not tdm and len(avail) > 1:
+            m = rng.choice(avail)
+            live.remove(m)
+            c = {"op": "Del", "p": [], "modes": [m]}
+        elif "fourier" in feats and r < 0.25:
+            c = {"op": "Fouriergate", "p": [], "modes": [rng.choice(avail)], "dagger": "dagger" in feats and rng.random() < 0.3}
+        elif r < 0.22 and (rng.random() < 0.6 or "select" in feats or "measphi" in feats):
+            kind = rng.choice(["MeasureHomodyne", "MeasureHomodyne", "MeasureFock", "MeasureHeterodyne", "MeasureThreshold"])
+            if kind in ("MeasureHomodyne", "MeasureHeterodyne"):
+                ms = [rng.choice(avail)]
+            else:
+                ms = rng.sample(avail, rng.randint(1, min(3, len(avail))))
+            c = {"op": kind, "p": [], "modes": ms}
+            if kind == "MeasureHomodyne":
+                phi = draw_num(rng, "a")
+                if (tdm and rng.random() < 0.7) or ("measphi" in feats and rng.random() < 0.6):
+                    s = sym_param()
+                    if s is not None:
+                        phi = s
+                c["p"] = [phi]
+            if "select" in feats and rng.random() < 0.7:
+                if kind == "MeasureHomodyne":
+                    c["select"] = rng.choice([0.0, 0.5, -1.25, 1, rng.uniform(-1, 1)])
+                elif kind == "MeasureHeterodyne":
+                    c["select"] = rng.choice([{"c": [0.25, -0.5]}, {"c": [rng.uniform(-1, 1), rng.uniform(-1, 1)]}, 0.5])
+                elif kind == "MeasureFock" and rng.random() < 0.5:
+                    c["dark"] = {"l": [rng.choice([0.1, 0.0, 0.25, 1]) for _ in ms]}
+                else:
+                    c["select"] = {"l": [rng.randrange(0, 2 if kind == "MeasureThreshold" else 3) for _ in ms]}
+            measured.extend(ms)
+        elif "special" in feats and r < 0.40:
+            k = rng.choice(["Catstate", "Catstate", "GKP", "MSgate", "Ket", "DensityMatrix", "Interferometer", "Interferometer",
+                            "GaussianTransform", "Gaussian", "PassiveChannel"] + (["GraphEmbed"] if wide else []))
+            if k == "Catstate":
+                a0 = rng.choice([0.5, 1, {"c": [0.3, 0.2]}, rng.uniform(0, 1)])
+                c = {"op": k, "p": [a0, draw_num(rng, "a"), rng.choice([0, 1, 0.5])], "modes": [rng.choice(avail)]}
+                c["p"] += [{"s": rng.choice(["complex", "real"])}, 1e-12, 2]
+            elif k == "GKP":
+                c = {"op": k, "p": [{"l": [rng.choice([0, rng.uniform(0, 1)]), rng.choice([0, rng.uniform(0, 1)])]}, rng.choice([0.2, 0.35]), 1e-12, {"s": "real"}, {"s": "square"}], "modes": [rng.choice(avail)]}
+            elif k == "MSgate":
+                c = {"op": k, "p": [draw_num(rng, "r"), draw_num(rng, "a")] + [rng.choice([10.0, 9.0]), rng.choice([1.0, 0.95]), rng.random() < 0.5], "modes": [rng.choice(avail)]}
+            elif k in ("Ket", "DensityMatrix"):
+                d = rng.choice([2, 3])
+                if k == "Ket":
+                    v = np.zeros(d, dtype=complex if rng.random() < 0.5 else float)
+                    v[rng.randrange(d)] = 1
+                else:
+                    v = np.zeros((d, d), dtype=complex if rng.random() < 0.5 else float)
+                    j = rng.randrange(d)
+                    v[j, j] = 1
+                c = {"op": k, "p": [arr_spec(v)], "modes": [rng.choice(avail)]}
+            elif k in ("Interferometer", "PassiveChannel"):
+                m = rng.randint(1, min(3, len(avail)))
+                ms = rng.sample(avail, m)
+                kindU = rng.choice(["haar", "real", "perm", "id"])
+                if kindU == "haar":
+                    U = rand_unitary(rng, m)
+                elif kindU == "real":
+                    U = rand_unitary(rng, m, False)
+                elif kindU == "perm":
+                    perm = list(range(m))
+                    rng.shuffle(perm)
+                    U = np.eye(m)[perm] * (1.0 if rng.random() < 0.5 else 1)
+                    if rng.random() < 0.5:
+                        U = U.astype(int)
+                else:
+                    U = np.eye(m)
+                if k == "PassiveChannel":
+                    U = U * 0.5
+                c = {"op": k, "p": [arr_spec(U)], "modes": ms}
+            elif k == "GaussianTransform":
+                m = rng.randint(1, min(2, len(avail)))
+                ms = rng.sample(avail, m)
+                U = rand_unitary(rng, m)
+                S = np.block([[U.real, -U.imag], [U.imag, U.real]])
+                c = {"op": k, "p": [arr_spec(S)], "modes": ms}
+            elif k == "Gaussian":
+                m = rng.randint(1, min(2, len(avail)))
+                ms = rng.sample(avail, m)
+                V = np.diag([rng.choice([1.0, 2.0, 1.5])] * (2 * m))
+                c = {"op": k, "p": [arr_spec(V), arr_spec(np.array([rng.uniform(-1, 1) for _ in range(2 * m)]))], "modes": ms}
+            elif k == "GraphEmbed":
+                m = rng.randint(2, 3) if len(avail) >= 2 else 0
+                if m and len(avail) >= m:
+                    ms = rng.sample(avail, m)
+                    A = np.ones((m, m)) - np.eye(m)
+                    c = {"op": k, "p": [arr_spec(A)], "modes": ms}
+                    if rng.random() < 0.6:
+                        c["kw"] = {"mean_photon_per_mode": rng.choice([0.5, 2.0])}
+        if c is None:
+            names = [k for k in GENERIC if NMODES[k] <= len(avail)]
+            name = rng.choice(names)
+            ms = rng.sample(avail, NMODES[name])
+            c = {"op": name, "p": numeric_params(GENERIC[name]), "modes": ms}
+            if name in DAGGERABLE and "dagger" in feats and rng.random() < 0.5:
+                c["dagger"] = True
+            if "strparam" in feats and name in ("Zgate", "Rgate") and rng.random() < 0.3:
+                c["p"] = [{"s": rng.choice(["complex", "hello"])}]
+        c.setdefault("dagger", False)
+        c.setdefault("select", None)
+        c.setdefault("dark", None)
+        cmds.append(c)
+    spec["cmds"] = cmds
+    return spec
+
+
+def spec_features(spec):
+    f = set()
+    for c in spec["cmds"]:
+        if c.get("dagger"):
+            f.add("dagger")
+        if c.get("select") is not None or c.get("dark") is not None:
+            f.add("select")
+        for p in c.get("p", []):
+            if isinstance(p, dict) and "e" in p:
+                f.add("symbolic")
+    if spec.get("tdm"):
+        f.add("tdm")
+    return f
+
+
+def nontrivial(spec):
+    return bool(spec_features(spec) & {"dagger", "select", "symbolic"})
+
+
+# ==========================================================================================
+# The property predicate on the implementation
+# ==========================================================================================
+
+CAUSE_PRIORITY = ["mixedexpr", "measexpr", "meas", "freeexpr", "free", "tdmexpr", "tdm", "str", "bool", "list", "arr1", "arr2", "arr3", "cplx"]
+CAUSE_NAME = {"mixedexpr": "free+measured-expr", "measexpr": "measured-expr", "meas": "measured-param", "freeexpr": "free-expr",
+              "free": "free-param", "tdmexpr": "tdm-expr", "tdm": "tdm-var", "str": "str-param", "bool": "bool-param",
+              "list": "list-param", "arr1": "array-1d", "arr2": "array-2d", "arr3": "array-3d", "cplx": "complex-param"}
+
+
+def _pkind(p):
+    if isinstance(p, bool):
+        return "bool"
+    if isinstance(p, dict):
+        if "c" in p:
+            return "cplx"
+        if "a" in p:
+            a = p["a"]
+            d = 0
+            while isinstance(a, list) and a and not (p.get("dt") == "complex" and len(a) == 2 and not isinstance(a[0], list)):
+                d += 1
+                a = a[0]
+            return "arr%d" % d
+        if "s" in p:
+            return "str"
+        if "l" in p:
+            return "list"
+        if "e" in p:
+            at = expr_atoms(p["e"])
+            kinds = {a[0] for a in at}
+            bare = p["e"][0] in ("free", "meas", "tdm")
+            if kinds == {"tdm"}:
+                return "tdm" if bare else "tdmexpr"
+            if kinds == {"free"}:
+                return "free" if bare else "freeexpr"
+            if kinds == {"meas"}:
+                return "meas" if bare else "measexpr"
+            return "mixedexpr"
+    return "num"
+
+
+def spec_cause(spec):
+    """Coarse input class of a (minimised) failing spec, from a fixed vocabulary."""
+    parts = []
+    if spec.get("tdm"):
+        parts.append("tdm")
+    ops_ = [c["op"] for c in spec["cmds"]]
+    if "Fouriergate" in ops_:
+        parts.append("Fouriergate")
+    elif "Del" in ops_ or "New" in ops_:
+        parts.append("meta-op")
+    else:
+        kinds = set()
+        meas = False
+        flags = set()
+        for c in spec["cmds"]:
+            ks = {_pkind(x) for x in c.get("p", [])} - {"num"}
+            if ks or c.get("select") is not None or c.get("dark") is not None:
+                meas = meas or c["op"].startswith("Measure")
+            kinds |= ks
+            if c.get("select") is not None:
+                flags.add("select")
+            if c.get("dark") is not None:
+                flags.add("dark")
+        for k in CAUSE_PRIORITY:
+            if k in kinds:
+                parts.append(("measure-" if meas else "") + CAUSE_NAME[k])
+                break
+        else:
+            if flags:
+                parts.append("measure-" + "+".join(sorted(flags)))
+            elif any(o.startswith("Measure") for o in ops_):
+                parts.append("measure")
+    return "|".join(parts) if parts else "plain"
+
+
+LEVELS = [("bb", "rec"), ("bb", "text"), ("xir", "rec"), ("xir", "text"), ("code", "text")]
+
+
+def check_roundtrip(spec, ir, level, with_state=True):
+    """Evaluate the property's predicate for one (format, level) on the implementation.
+    Returns list of issues: dict(base=signature without blame, kind, what, exc=bool)."""
+    issues = []
+    try:
+        prog = build(spec)
+    except Exception as e:  # the spec itself is not constructible: not a property failure
+        return [{"base": "unbuildable", "kind": "skip", "what": "%s: %s" % (type(e).__name__, e), "exc": True}]
+    v0 = view(prog)
+    tol = 0.0
+    try:
+        if ir == "code":
+            loaded, text = roundtrip_code(prog)
+            tol = 1e-5  # _factor_out_pi snaps values within np.isclose of a multiple of pi/12
+        else:
+            # the writer must not modify the program it serialises
+            write_ir(prog, ir)
+            v_after = view(prog)
+            if v_after != v0:
+                d = diff_views(v0, v_after, ir, compare_n=True)
+                issues.append({"base": ir + ":writer-mutates-program", "kind": "mutate", "exc": False,
+                               "what": "to_%s modified the program it was given: %s" % ("blackbird" if ir == "bb" else "xir", "; ".join(w for _, w in d)[:300])})
+                prog = build(spec)
+            loaded, text = roundtrip(prog, ir, level)
+    except Stage as s:
+        issues.append({"base": "%s:%s" % (ir, s.signature), "kind": "exception", "exc": True,
+                       "what": "%s round trip (%s level) raised at stage %s: %s: %s" % (ir, level, s.stage, type(s.exc).__name__, str(s.exc)[:200])})
+        return issues
+    v1 = view(loaded)
+    fields = None
+    if ir == "code":
+        fields = ()  # generate_code(prog) without an engine does not claim to carry target / options
+    diffs = diff_views(v0, v1, ir, tol=tol, compare_n=(ir == "bb" and level == "rec") or ir == "code", fields=fields)
+    for sig, w in diffs:
+        issues.append({"base": sig, "kind": "diff", "exc": False, "what": "after %s round trip (%s level): %s" % (ir, level, w)})
+    if with_state and runnable_gaussian(v0) and (not diffs or all(d[0].endswith("dagger-dropped") for d in diffs)):
+        try:
+            s0 = run_state(build(spec))
+        except Exception:
+            s0 = None
+        if s0 is not None:
+            try:
+                s1 = run_state(loaded)
+                k = min(v0["n"], v1["n"])
+                a, b = reduced(s0, k), reduced(s1, k)
+                if not (np.all(np.isfinite(s0[0])) and np.all(np.isfinite(s0[1])) and np.max(np.abs(s0[1])) < 1e6):
+                    raise FloatingPointError("state not finite / too large to compare")
+                same = np.allclose(a[0], b[0], atol=1e-7, rtol=1e-9) and np.allclose(a[1], b[1], atol=1e-7, rtol=1e-9)
+                if v0["n"] > k:
+                    # the dropped trailing modes must have been untouched vacuum
+                    rest = [i for i in range(v0["n"]) if i >= k]
+                    m, cv = s0
+                    nn = v0["n"]
+                    idx = rest + [nn + i for i in rest]
+                    same = same and np.allclose(m[idx], 0, atol=1e-9) and np.allclose(cv[np.ix_(idx, idx)], np.eye(len(idx)) * cv[idx[0], idx[0]], atol=1e-9)
+                if not same and not diffs:
+                    issues.append({"base": ir + ":state-differs", "kind": "state", "exc": False,
+                                   "what": "loaded program has the same listed commands but prepares a different Gaussian state"})
+                elif diffs:
+                    for it in issues:
+                        if it["kind"] == "diff":
+                            it["what"] += " [gaussian states of original and loaded program %s]" % ("agree" if same else "DIFFER")
+            except FloatingPointError:
+                pass
+            except Exception as e:
+                issues.append({"base": ir + ":loaded-program-does-not-run:" + type(e).__name__, "kind": "state", "exc": False,
+                               "what": "original program runs on the gaussian backend, loaded one raises %s: %s" % (type(e).__name__, str(e)[:150])})
+    return issues
+
+
+def shrink(spec, ir, level, base):
+    """Greedy minimisation keeping an issue with the same base signature."""
+    def still(s):
+        try:
+            return any(i["base"] == base for i in check_roundtrip(s, ir, level, with_state=base.endswith("state-differs") or "does-not-run" in base))
+        except Exception:
+            return False
+    cur = copy.deepcopy(spec)
+    i = len(cur["cmds"]) - 1
+    while i >= 0:
+        cand = copy.deepcopy(cur)
+        del cand["cmds"][i]
+        if still(cand):
+            cur = cand
+        i -= 1
+    for f in ("target", "shots", "cutoff"):
+        if cur.get(f) is not None:
+            cand = copy.deepcopy(cur)
+            cand[f] = None
+            if still(cand):
+                cur = cand
+    for c_i, c in enumerate(cur["cmds"]):
+        if c["op"] in GENERIC:
+            for p_i, pv in enumerate(c.get("p", [])):
+                if isinstance(pv, dict):
+                    cand = copy.deepcopy(cur)
+                    cand["cmds"][c_i]["p"][p_i] = 0.5
+                    if still(cand):
+                        cur = cand
+    for c_i, c in enumerate(cur["cmds"]):
+        for f in ("dagger", "select", "dark"):
+            if c.get(f):
+                cand = copy.deepcopy(cur)
+                cand["cmds"][c_i][f] = False if f == "dagger" else None
+                if still(cand):
+                    cur = cand
+    return cur
+
+
+def code_domain(spec):
+    """generate_code is checked on programs whose parameters are scalars or TDM loop variables"""
+    for c in spec["cmds"]:
+        if c["op"] in ("Del", "New"):
+            return False
+        for x in c.get("p", []):
+            if _pkind(x) not in ("num", "cplx", "tdm"):
+                return False
+    return True
+
+
+def full_signature(issue, min_spec):
+    if issue["exc"]:
+        return "%s[%s]" % (issue["base"], spec_cause(min_spec))
+    return issue["base"]
+
+
+def evaluate(ctx, spec, origin="search", levels=LEVELS, seen=None):
+    """Run the predicate at every level; report counterexamples (minimised, de-duplicated per signature)."""
+    found = []
+    for ir, level in levels:
+        if ir == "code" and not code_domain(spec):
+            continue
+        for it in check_roundtrip(spec, ir, level):
+            if it["kind"] == "skip":
+                continue
+            key = (ir, level, it["base"]) if not it["exc"] else None
+            if seen is not None and key is not None and key in seen:
+                found.append((it["base"], ir, level))
+                continue
+            ms = shrink(spec, ir, level, it["base"])
+            sig = full_signature(it, ms)
+            if seen is not None:
+                if key is not None:
+                    seen.add(key)
+                if (sig, ir, level) in seen:
+                    found.append((sig, ir, level))
+                    continue
+                seen.add((sig, ir, level))
+            # re-describe on the minimised input
+            what = it["what"]
+            for it2 in check_roundtrip(ms, ir, level):
+                if it2["base"] == it["base"]:
+                    what = it2["what"]
+                    break
+            ctx.counterexample(sig, what, {"check": "roundtrip", "ir": ir, "level": level, "base": it["base"], "spec": ms, "origin": origin})
+            found.append((sig, ir, level))
+    return found
+
+
+# ==========================================================================================
+# Tie to the Coq model: encode specs as Gallina terms, decode model results to canonical views
+# ==========================================================================================
+from vlib import coq  # noqa: E402
+
+OPNAMES = sorted(set(GENERIC) | {"Catstate", "GKP", "MSgate", "Ket", "DensityMatrix", "Interferometer", "GaussianTransform",
+                                 "Gaussian", "PassiveChannel", "GraphEmbed", "BipartiteGraphEmbed", "Bosonic"})
+MKIND = {"MeasureFock": "MFock", "MeasureHomodyne": "MHom", "MeasureHeterodyne": "MHet", "MeasureThreshold": "MThr"}
+MKIND_INV = {v: k for k, v in MKIND.items()}
+META = ["Del", "New"]
+META_CLASSNAME = {"Del": "_Delete", "New": "_New_modes"}
+UN = {"neg": 0, "sin": 1, "cos": 2, "exp": 3}
+BIN = {"add": 0, "mul": 1, "pow": 2}
+UN_INV = {v: k for k, v in UN.items()}
+BIN_INV = {v: k for k, v in BIN.items()}
+TARGETS = ["gaussian", "fock", "X8_01", "TD2", "bosonic", "tf"]
+ERRNAME = {"ENameError": "NameError", "ETypeError": "TypeError", "EValueError": "ValueError", "EIndexError": "IndexError"}
+
+
+class Tables:
+    def __init__(self):
+        self.vals = []    # id -> spec value
+        self.names = []   # NId / NQx index -> string
+        self.lits = []    # SLit index -> string
+
+    def vid(self, v):
+        key = json.dumps(v, sort_keys=True)
+        for i, (k, _) in enumerate(self.vals):
+            if k == key:
+                return i
+        self.vals.append((key, v))
+        return len(self.vals) - 1
+
+    def name(self, s):
+        if re.fullmatch(r"p\d+", s):
+            return "(NP %d)" % int(s[1:])
+        if re.fullmatch(r"q\d+", s):
+            return "(NQ %d)" % int(s[1:])
+        if s not in self.names:
+            self.names.append(s)
+        i = self.names.index(s)
+        return ("(NQx %d)" if s[0] == "q" else "(NId %d)") % i
+
+    def lit(self, s):
+        if s not in self.lits:
+            self.lits.append(s)
+        return self.lits.index(s)
+
+
+def enc_expr(e, T):
+    k = e[0]
+    if k == "num":
+        return "(ENum %s)" % coq.coq_Z(T.vid(e[1]))
+    if k == "free":
+        return "(EAtom (AFree %s))" % T.name(e[1])
+    if k == "meas":
+        return "(EAtom (AMeas %d))" % e[1]
+    if k == "tdm":
+        return "(EAtom (AFree (NP %d)))" % e[1]
+    if k in UN:
+        return "(EUn %d %s)" % (UN[k], enc_expr(e[1], T))
+    if k == "pow":
+        return "(EBin 2 %s (ENum %s))" % (enc_expr(e[1], T), coq.coq_Z(T.vid(e[2])))
+    return "(EBin %d %s %s)" % (BIN[k], enc_expr(e[1], T), enc_expr(e[2], T))
+
+
+def enc_val(v, T):
+    if isinstance(v, dict) and "s" in v:
+        return "(VStr (SLit %d))" % T.lit(v["s"])
+    if isinstance(v, dict) and "e" in v:
+        return "(VSym %s)" % enc_expr(v["e"], T)
+    if isinstance(v, dict) and ("l" in v or "a" in v):
+        return "(VSeq %s)" % coq.coq_Z(T.vid(v))
+    return "(VNum %s)" % coq.coq_Z(T.vid(v))
+
+
+def enc_opt(v, f):
+    return "None" if v is None else "(Some %s)" % f(v)
+
+
+def enc_cmd(c, T):
+    name = c["op"]
+    params = [enc_val(v, T) for v in c.get("p", [])]
+    if name == "Fouriergate":
+        cls = "OFourier"
+        params = [enc_val(math.pi / 2, T)]
+    elif name in MKIND:
+        cls = "(OMeas %s)" % MKIND[name]
+    elif name in META:
+        cls = "(OMeta %d)" % META.index(name)
+        params = []
+    else:
+        cls = "(OGate %d)" % OPNAMES.index(name)
+    return "(mkCmd %s %s %s %s %s %s)" % (cls, coq.coq_list(params), coq.coq_list(c["modes"], str), coq.coq_bool(c.get("dagger")),
+                                         enc_opt(c.get("select"), lambda v: enc_val(v, T)), enc_opt(c.get("dark"), lambda v: enc_val(v, T)))
+
+
+def enc_prog(spec, T):
+    tdm = spec.get("tdm")
+    if tdm:
+        t = "(Some (mkTdm %s %s %s))" % (coq.coq_list(tdm["N"], str), coq.coq_list([coq.coq_Z(T.vid({"a": a, "dt": "obj"})) for a in tdm["arrays"]]),
+                                         "None" if tdm.get("shift", "default") == "default" else "(Some %d)" % tdm["shift"])
+    else:
+        t = "None"
+    return "(mkProg %d %s %s %s %s %s)" % (
+        spec["n"], enc_opt(spec.get("target"), lambda s: str(TARGETS.index(s))), enc_opt(spec.get("shots"), coq.coq_Z),
+        enc_opt(spec.get("cutoff"), coq.coq_Z), coq.coq_list([enc_cmd(c, T) for c in spec["cmds"]]), t)
+
+
+# ---- decoding ---------------------------------------------------------------------------------
+
+def _head(t):
+    return t[0] if isinstance(t, tuple) else t
+
+
+def dec_name(t, T):
+    h = _head(t)
+    if h == "NP":
+        return "p%d" % t[1]
+    if h == "NQ":
+        return "q%d" % t[1]
+    return T.names[t[1]]
+
+
+def dec_expr(t, T, style):
+    """style: 'sf' (atoms M_k / F_name, as _sym_canon), 'print' (free -> FREE_name, meas -> q<k>), 'names' (bare names)"""
+    h = _head(t)
+    if h == "EAtom":
+        a = t[1]
+        if _head(a) == "AMeas":
+            return sympy.Symbol(("M_%d" if style == "sf" else "q%d") % a[1])
+        nm = dec_name(a[1], T)
+        return sympy.Symbol({"sf": "F_", "print": "FREE_", "names": ""}[style] + nm)
+    if h == "ENum":
+        return sympy.sympify(T.vals[t[1]][1])
+    if h == "EUn":
+        x = dec_expr(t[2], T, style)
+        f = UN_INV[t[1]]
+        return -x if f == "neg" else getattr(sympy, f)(x)
+    a, b = dec_expr(t[2], T, style), dec_expr(t[3], T, style)
+    f = BIN_INV[t[1]]
+    return a + b if f == "add" else (a * b if f == "mul" else a ** b)
+
+
+def dec_val(t, T):
+    if t is None:
+        return None
+    h = _head(t)
+    if h in ("VNum", "VSeq"):
+        v = T.vals[t[1]][1]
+        if isinstance(v, dict) and v.get("dt") == "obj":
+            return pview(np.asarray(v["a"]))
+        return pview(_val(v))
+    if h == "VSym":
+        return ["sym", sympy.srepr(dec_expr(t[1], T, "sf"))]
+    if h == "VRRT":
+        return ["rrt", sympy.srepr(dec_expr(t[1], T, "sf"))]
+    s = t[1]
+    sh = _head(s)
+    if sh == "SLit":
+        return ["str", T.lits[s[1]]]
+    if sh == "SName":
+        return ["strexpr", sympy.srepr(sympy.Symbol(dec_name(s[1], T)))]
+    return ["strexpr", sympy.srepr(dec_expr(s[1], T, "print" if sh == "SPrint" else "names"))]
+
+
+def dec_opt(t, f):
+    if t is None:
+        return None
+    return f(t[1])
+
+
+def dec_cls(t):
+    h = _head(t)
+    if h == "OFourier":
+        return "Fouriergate"
+    if h == "OMeas":
+        return MKIND_INV[t[1]]
+    if h == "OMeta":
+        return META_CLASSNAME[META[t[1]]]
+    return OPNAMES[t[1]]
+
+
+def dec_prog(t, T):
+    # mkProg pn ptarget pshots pcutoff pcirc ptdm
+    _, n, tg, sh, cu, circ, tdm = t
+    cmds = []
+    for c in circ:
+        _, cls, ps, ms, dg, se, da = c
+        cmds.append({"op": dec_cls(cls), "modes": list(ms), "p": [dec_val(x, T) for x in ps], "dagger": bool(dg),
+                     "select": dec_opt(se, lambda v: dec_val(v, T)), "dark": dec_opt(da, lambda v: dec_val(v, T))})
+    v = {"type": "Program", "n": n, "target": dec_opt(tg, lambda i: TARGETS[i]), "shots": dec_opt(sh, int), "cutoff": dec_opt(cu, int),
+         "cmds": cmds, "tdm": None}
+    if tdm is not None:
+        _, N, arrs, shift = tdm[1]
+        v["type"] = "TDMProgram"
+        v["tdm"] = {"N": list(N), "arrays": [dec_val(("VNum", a), T) for a in arrs], "shift": "default" if shift is None else shift[1]}
+    return v
+
+
+def dec_res(t, f):
+    if _head(t) == "Ok":
+        return ("ok", f(t[1]))
+    return ("err", ERRNAME[t[1]])
+
+
+def dec_bb(t, T):
+    _, mx, tg, sh, cu, ops_, vars_ = t
+    return {"maxmode": mx, "target": dec_opt(tg, lambda i: TARGETS[i]), "shots": dec_opt(sh, int), "cutoff": dec_opt(cu, int),
+            "ops": [{"op": dec_cls(o[1]), "args": [dec_val(x, T) for x in o[2]], "select": dec_opt(o[3], lambda v: dec_val(v, T)),
+                     "dark": dec_opt(o[4], lambda v: dec_val(v, T)), "modes": list(o[5])} for o in ops_],
+            "vars": dec_opt(vars_, lambda l: [dec_val(("VNum", a), T) for a in l])}
+
+
+def dec_x(t, T):
+    _, ttdm, tg, tgus, cu, sh, st = t
+    return {"tdm": dec_opt(ttdm, lambda pr: {"N": list(pr[0]), "arrays": [dec_val(("VNum", a), T) for a in pr[1]]}),
+            "target": dec_opt(tg, lambda i: TARGETS[i]), "target_us": dec_opt(tgus, lambda i: TARGETS[i]),
+            "cutoff": dec_opt(cu, int), "shots": dec_opt(sh, int),
+            "stmts": [{"op": dec_cls(x[1]), "list": [dec_val(y, T) for y in x[2]], "phi": dec_opt(x[3], lambda v: dec_val(v, T)),
+                       "select": dec_opt(x[4], lambda v: dec_val(v, T)), "dark": dec_opt(x[5], lambda v: dec_val(v, T)), "wires": list(x[6])} for x in st]}
+
+
+# ---- canonical form of the implementation's IR objects -------------------------------------------
+
+FUNCS = {"sin": sympy.sin, "cos": sympy.cos, "exp": sympy.exp, "log": sympy.log, "sqrt": sympy.sqrt}
+
+
+def parse_str_expr(s):
+    s2 = re.sub(r"\{(\w+)\}", r"FREE_\1", s)
+    idents = set(re.findall(r"[A-Za-z_]\w*", s2))
+    loc = dict(FUNCS)
+    for i in idents:
+        if i not in FUNCS:
+            loc[i] = sympy.Symbol(i)
+    from sympy.parsing.sympy_parser import parse_expr
+    return parse_expr(s2, local_dict=loc, global_dict={"Integer": sympy.Integer, "Float": sympy.Float, "Rational": sympy.Rational, "Symbol": sympy.Symbol})
+
+
+def norm_str(pv, lits):
+    """["str", s] for a non-literal string becomes ["strexpr", srepr(parsed)]; applied recursively"""
+    if pv is None:
+        return None
+    if pv[0] == "str" and pv[1] not in lits:
+        try:
+            return ["strexpr", sympy.srepr(parse_str_expr(pv[1]))]
+        except Exception:
+            return ["str", pv[1]]
+    return pv
+
+
+def ir_pview(x, lits):
+    if type(x).__name__ == "RegRefTransform":
+        return ["rrt", sympy.srepr(_sym_canon(x.expr))]
+    return norm_str(pview(x), lits)
+
+
+def canon_bb(bb, lits):
+    opts = bb.target["options"]
+    ops_ = []
+    for o in bb.operations:
+        kw = dict(o.get("kwargs", {}))
+        d = {"op": o["op"], "args": [ir_pview(x, lits) for x in o.get("args", [])], "select": ir_pview(kw.pop("select", None), lits),
+             "dark": ir_pview(kw.pop("dark_counts", None), lits), "modes": list(o["modes"])}
+        if kw:
+            d["other_kwargs"] = sorted(kw)
+        ops_.append(d)
+    vars_ = None
+    if bb.programtype["name"] == "tdm":
+        vars_ = [pview(np.asarray(bb._var[k]).flatten()) for k in bb._var]
+    return {"maxmode": max(bb.modes), "target": bb.target["name"], "shots": opts.get("shots"), "cutoff": opts.get("cutoff_dim"),
+            "ops": ops_, "vars": vars_}
+
+
+def canon_x(x, lits):
+    o = x.options
+    st = []
+    for s_ in x.statements:
+        ps = s_.params
+        d = {"op": s_.name, "list": [], "phi": None, "select": None, "dark": None, "wires": [int(w) for w in s_.wires]}
+        if isinstance(ps, dict):
+            ps = dict(ps)
+            d["phi"] = ir_pview(ps.pop("phi", None), lits)
+            d["select"] = ir_pview(ps.pop("select", None), lits)
+            d["dark"] = ir_pview(ps.pop("dark_counts", None), lits)
+            if ps:
+                d["other_kwargs"] = sorted(ps)
+        else:
+            d["list"] = [ir_pview(y, lits) for y in ps]
+        st.append(d)
+    tdm = None
+    if o.get("_type_") == "tdm":
+        consts = x.constants
+        tdm = {"N": list(o.get("N")), "arrays": [pview(np.asarray(consts[k], dtype=object)) for k in consts]}
+    return {"tdm": tdm, "target": o.get("target"), "target_us": o.get("_target_"), "cutoff": o.get("cutoff_dim"), "shots": o.get("shots"), "stmts": st}
+
+
+def ir_equal(a, b):
+    """structural equality of canonical IR dicts with pv_equal on parameter views; returns list of differing paths"""
+    out = []
+
+    def is_pv(x):
+        return isinstance(x, list) and x and isinstance(x[0], str) and x[0] in ("num", "arr", "seq", "str", "strexpr", "sym", "rrt", "bool", "other")
+
+    def go(x, y, path):
+        if is_pv(x) or is_pv(y):
+            if not (is_pv(x) and is_pv(y) and pv_equal(x, y)):
+                out.append("%s: %r vs %r" % (path, x, y))
+        elif isinstance(x, dict) and isinstance(y, dict):
+            for k in sorted(set(x) | set(y)):
+                if k not in x or k not in y:
+                    out.append("%s.%s: present on one side only" % (path, k))
+                else:
+                    go(x[k], y[k], path + "." + k)
+        elif isinstance(x, list) and isinstance(y, list):
+            if len(x) != len(y):
+                out.append("%s: length %d vs %d" % (path, len(x), len(y)))
+            for i, (p_, q_) in enumerate(zip(x, y)):
+                go(p_, q_, "%s[%d]" % (path, i))
+        elif x != y:
+            out.append("%s: %r vs %r" % (path, x, y))
+    go(a, b, "")
+    return out
+
+
+def norm_view(v, lits):
+    v = copy.deepcopy(v)
+    for c in v["cmds"]:
+        c["p"] = [norm_str(x, lits) for x in c["p"]]
+        c["select"] = norm_str(c["select"], lits)
+        c["dark"] = norm_str(c["dark"], lits)
+        c.pop("extra", None)
+    if v.get("tdm"):
+        v["tdm"].pop("timebins", None)
+    return v
+
+
+def impl_records(spec, lits):
+    """Run the implementation's writers and readers at object level; return canonical results."""
+    out = {}
+    for ir in ("bb", "xir"):
+        prog = build(spec)
+        try:
+            obj = sfio.to_blackbird(prog) if ir == "bb" else sfio.to_xir(prog)
+            out[ir + "_w"] = ("ok", canon_bb(obj, lits) if ir == "bb" else canon_x(obj, lits))
+        except Exception as e:
+            out[ir + "_w"] = ("err", type(e).__name__)
+            out[ir + "_r"] = ("err", type(e).__name__)
+            continue
+        try:
+            loaded = sfio.to_program(obj)
+            out[ir + "_r"] = ("ok", norm_view(view(loaded), lits))
+        except Exception as e:
+            out[ir + "_r"] = ("err", type(e).__name__)
+    return out
+
+
+def model_domain(spec):
+    """specs the Coq model speaks about"""
+    for c in spec["cmds"]:
+        if c.get("kw"):
+            return False
+        if c["op"] not in OPNAMES and c["op"] not in MKIND and c["op"] not in META and c["op"] != "Fouriergate":
+            return False
+    return True
+
+
+def expr_survives(spec):
+    """sympy must not have simplified away an atom of a generated expression (the abstract expression is only a label)"""
+    try:
+        prog = build(spec)
+    except Exception:
+        return False
+    k = 0
+    for c, cm in zip(spec["cmds"], [x for x in prog.circuit]):
+        for sp, actual in zip(c.get("p", []), cm.op.p):
+            if isinstance(sp, dict) and "e" in sp:
+                if not isinstance(actual, sympy.Basic):
+                    return False
+                want = set()
+                for a in expr_atoms(sp["e"]):
+                    want.add(("M_%d" % a[1]) if a[0] == "meas" else ("F_p%d" % a[1] if a[0] == "tdm" else "F_" + a[1]))
+                have = {str(s_) for s_ in _sym_canon(actual).free_symbols}
+                if want != have:
+                    return False
+    return True
+
+
+# ==========================================================================================
+# The check module proper
+# ==========================================================================================
+PROP = "C14"
+LEVEL = "proof"
+COQ_TARGETS = ["C14/Model.vo", "C14/Proofs.vo"]
+COQ_DIRS = ["C14"]
+PROPERTIES_FILE = "Properties/C14.v"
+ALLOWED_AXIOMS = set()
+RULE = ("a case is one generated program (1-12 modes incl. non-contiguous / descending / >=9 mode indices, 0-8 commands over every "
+        "operation class of the front end: gates, channels, preparations, four measurement classes, decompositions with array "
+        "arguments, Fouriergate, Del; parameters int / float (incl. -0.0, 1e-20, multiples of pi) / complex / 1-d, 2-d real and complex "
+        "arrays / strings / bool / free, measured, mixed and TDM-loop-variable expressions; daggers; select / dark_counts; target, "
+        "shots, cutoff_dim; TDM programs with 1-3 arrays, N of 1-3 bands, shift) pushed through Blackbird and XIR at object level and "
+        "at text level and through generate_code; non-trivial = contains a dagger, a select/dark_counts or a symbolic parameter")
+TRUSTED_BASE = [
+    "Coq 8.16.1 kernel; vm_compute for evaluating the model on generated programs",
+    "hand-written model coq/C14/Model.v of to_blackbird / from_blackbird / from_blackbird_to_tdm / to_xir / from_xir / from_xir_to_tdm / "
+    "par_convert at the level of Program <-> IR operation records, tied on every run by exact correspondence (writer output records, "
+    "reader results and exception kinds) on generated programs",
+    "the text layer (blackbird / xir printers and parsers, external packages), sympy printing and generate_code are not modelled; they are "
+    "exercised end to end by the search (sf.loads(serialize(p)), exec(generate_code(p)))",
+    "harness: tools/props/c14.py (spec builder, canonical views, semantic comparison of parameters incl. sympy simplification for "
+    "symbolic ones, gaussian backend for state comparison)",
+]
+ASSUMPTIONS = [
+    "non-symbolic, non-string parameter values are opaque in the model (the code passes them through); string literals used as parameters "
+    "are not of the form p<digits> or {..}; symbolic parameters contain at least one unbound / unmeasured atom",
+    "neither text format declares the number of modes, so unused trailing modes are not required to survive a text round trip "
+    "(num_subsystems is compared only for the Blackbird object-level round trip and generate_code)",
+    "program name and Interferometer mesh / tolerance options are not part of the compared meaning; generate_code is checked on programs "
+    "whose parameters are scalars or TDM loop variables, with 1e-5 relative tolerance (it snaps values to multiples of pi/12)",
+]
+MANIFEST_TEXT = ("C14: full theorems C14_bb_roundtrip / C14_xir_roundtrip (object-level round trip returns exactly the program, under "
+                 "explicit hypotheses that exclude the recorded defects), each hypothesis shown necessary by a _refuted theorem; model "
+                 "tied by exact correspondence; text level and generate_code covered by search only")
+
+
+
+
+def _corpus_files():
+    import glob
+    import os
+    return sorted(glob.glob(os.path.join(coq.VERIF, "corpus", "C14-*.json")))
+
+
+def correspondence(ctx):
+    rng = ctx.rng
+    n_cases = ctx.budget(160, 1500)
+    specs = []
+    tries = 0
+    while len(specs) < n_cases and tries < n_cases * 5:
+        tries += 1
+        sp = gen_program(rng, wide=False)
+        if model_domain(sp) and expr_survives(sp):
+            specs.append(sp)
+    SH = 150
+    for si in range(0, len(specs), SH):
+        shard = specs[si:si + SH]
+        tabs, items = [], []
+        for sp in shard:
+            T = Tables()
+            items.append(enc_prog(sp, T))
+            tabs.append(T)
+        text = "\n".join([
+            "From Coq Require Import List ZArith Bool.", "Import ListNotations.", "From SFV Require Import C14.Model.",
+            "Unset Printing Records.",
+            "Definition cases : list prog := [", ";\n".join(items) + "].",
+            "Eval vm_compute in map (fun p => (p, to_bb p, bb_roundtrip p, to_xir p, xir_roundtrip p)) cases."])
+        ok, vals, raw = ctx.coq_eval("cases_%d" % (si // SH), text)
+        if not ok or not vals or len(vals[0]) != len(shard):
+            ctx.obligation("correspondence:model-eval:shard%d" % (si // SH), False, raw)
+            return
+        for sp, T, mv in zip(shard, tabs, vals[0]):
+            ctx.traces += 1
+            lits = set(T.lits)
+            p_t, bbw_t, bbr_t, xw_t, xr_t = mv
+            # self-check of the encoding: the decoded model program is the built program
+            v0 = norm_view(view(build(sp)), lits)
+            enc_diff = diff_views(v0, dec_prog(p_t, T), "enc", compare_n=not any(c["op"] in META for c in sp["cmds"]))
+            if enc_diff:
+                ctx.obligation("correspondence:encoding-selfcheck", False, "%s\n%s" % (enc_diff, json.dumps(sp)))
+                return
+            impl = impl_records(sp, lits)
+            model = {"bb_w": dec_res(bbw_t, lambda t: dec_bb(t, T)), "bb_r": dec_res(bbr_t, lambda t: dec_prog(t, T)),
+                     "xir_w": ("ok", dec_x(xw_t, T)), "xir_r": dec_res(xr_t, lambda t: dec_prog(t, T))}
+            ctx.case({"spec": sp, "model": {k: (v[0] if v[0] == "ok" else v[1]) for k, v in model.items()}},
+                     nontrivial=nontrivial(sp), bucket="corr:" + "+".join(sorted(spec_features(sp))) if spec_features(sp) else "corr:plain")
+            bad = []
+            for k in ("bb_w", "bb_r", "xir_w", "xir_r"):
+                m, i = model[k], impl[k]
+                if m[0] != i[0]:
+                    bad.append((k, "model %s vs implementation %s" % (m if m[0] == "err" else "ok", i if i[0] == "err" else "ok")))
+                elif m[0] == "err":
+                    if m[1] != i[1]:
+                        bad.append((k, "error kind: model %s vs implementation %s" % (m[1], i[1])))
+                elif k.endswith("_w"):
+                    d = ir_equal(m[1], i[1])
+                    if d:
+                        bad.append((k, "; ".join(d)[:400]))
+                else:
+                    d = diff_views(m[1], i[1], k[:-2], compare_n=True)
+                    if d:
+                        bad.append((k, "; ".join(w for _, w in d)[:400]))
+            if bad:
+                # the tie is broken on this input: does the implementation violate the property here?
+                before = len(ctx.issues)
+                evaluate(ctx, sp, origin="correspondence", seen=ctx.extra.setdefault("_seen", set()))
+                ctx.disagreement("corr:" + bad[0][0], "model and implementation differ on %s: %s" % (bad[0][0], bad[0][1]),
+                                 {"check": "corr", "spec": sp, "where": bad})
+    ctx.extra.pop("_seen", None)
+
+
+def search(ctx):
+    rng = ctx.rng
+    seen = set()
+    # corpus first
+    for f in _corpus_files():
+        try:
+            d = json.load(open(f))["data"]
+            evaluate(ctx, d["spec"], origin="corpus:" + os.path.basename(f), levels=[(d["ir"], d["level"])], seen=seen)
+        except Exception as e:
+            ctx.obligation("corpus:" + os.path.basename(f), False, repr(e))
+    n_cases = ctx.budget(350, 4500)
+    for _ in range(n_cases):
+        sp = gen_program(rng, wide=True)
+        found = evaluate(ctx, sp, origin="search", seen=seen)
+        feats = spec_features(sp)
+        ctx.case({"spec": sp, "failing": sorted({f[0] for f in found})[:6]}, nontrivial=nontrivial(sp),
+                 bucket="search:" + ("+".join(sorted(feats)) if feats else "plain") + (":ok" if not found else ":fails"))
+    ctx.extra["signatures_seen"] = sorted({k[0] for k in seen if len(k) == 3 and isinstance(k[0], str)})
+
+
+def replay(ctx, data):
+    d = data["data"]
+    if d.get("check") == "corr":
+        sp = d["spec"]
+        res = []
+        for ir, level in LEVELS:
+            res += [(ir, level, i) for i in check_roundtrip(sp, ir, level) if i["kind"] != "skip"]
+        for ir, level, i in res:
+            print("%s/%s: %s: %s" % (ir, level, i["base"], i["what"][:300]))
+        return bool(res)
+    sp, ir, level = d["spec"], d["ir"], d["level"]
+    print("program:", json.dumps(sp))
+    iss = [i for i in check_roundtrip(sp, ir, level) if i["kind"] != "skip"]
+    for i in iss:
+        print("%s/%s: %s: %s" % (ir, level, i["base"], i["what"][:400]))
+    base = d.get("base")
+    hit = [i for i in iss if base is None or i["base"] == base]
+    if not hit and iss:
+        print("(the recorded failure %r is gone, but the round trip still fails in another way)" % base)
+    return bool(hit)
